@@ -1,3 +1,4 @@
+pub mod api;
 pub mod rng;
 pub mod sm2;
 pub mod sm3;
